@@ -55,7 +55,7 @@ PROPS = {
                ["Uniseg.Properties.C10.fix_vals", "Uniseg.Properties.C10.word_fix", "Uniseg.Properties.C10.sentence_fix", "Uniseg.Properties.C10.line_fix",
                 "Uniseg.Properties.C10.grapheme_fix", "Uniseg.Properties.C10.step_fix", "Uniseg.Properties.C10.sizes", "Uniseg.Properties.C10.search_index_safe",
                 "Uniseg.Utf8.decode_encode", "Uniseg.Utf8.decode_scalar"],
-               ["C10"], hang_is_violation=True),
+               ["C10"], stages=("E3", "E4", "E5"), hang_is_violation=True),
     "C02": seg("C02", "Uniseg.Properties.C02",
                ["Uniseg.Properties.C02.word_verdicts_eq_wb", "Uniseg.Properties.C02.word_segments_eq_wb", "Uniseg.Properties.C02.fffd_inert",
                 "Uniseg.Spec.WB.wbBreak_factor", "Uniseg.Cert.Word.valid", "Uniseg.Auto.run_agree_start"],
@@ -94,7 +94,7 @@ PROPS = {
     "C15": rel("Uniseg.Properties.C15",
                ["Uniseg.Properties.C15.runeWidth_amb", "Uniseg.Properties.C15.runeWidth_affine", "Uniseg.Properties.C15.firstGraphemeCluster_amb",
                 "Uniseg.Properties.C15.grapheme_chain_amb", "Uniseg.Properties.C15.step_amb", "Uniseg.Properties.C15.step_flags_amb", "Uniseg.Properties.C15.config_only_read_in_runeWidth"],
-               ["C15"], stages=("E5",), e5only="fg,st,sts,sw", extra="extra_amb"),
+               ["C15"], stages=("E2", "REF", "E5"), oracle_stages=["REF"], e2props="e,E", e5only="fg,st,sts,sw", extra="extra_amb"),
     "C16": rel("Uniseg.Properties.C16",
                ["Uniseg.Properties.C16.interleaving_eq_solo", "Uniseg.Properties.C16.package_is_read_only", "Uniseg.Properties.C16.config_read_only_in_runeWidth"],
                [], stages=(), extra="extra_race",
@@ -108,7 +108,7 @@ PROPS = {
                ["Uniseg.Properties.C11.restart", "Uniseg.Properties.C11.word_restart", "Uniseg.Properties.C11.sentence_restart",
                 "Uniseg.Properties.C11.line_restart", "Uniseg.Properties.C11.grapheme_restart", "Uniseg.Auto.restart_at_boundary",
                 "Uniseg.Cert.Grapheme.valid", "Uniseg.Cert.Word.valid", "Uniseg.Cert.Sentence.valid", "Uniseg.Cert.Line.valid"],
-               ["C11"], stages=("E1", "E3", "E5"), cert_algs=["gr", "wb", "sb", "lb"], e5only="fg,fw,fs,fl"),
+               ["C11"], stages=("E1", "E3", "E5"), cert_algs=["gr", "wb", "sb", "lb"], e5only="fg,fw,fs,fl,st,sts"),
     "C12": rel("Uniseg.Properties.C12",
                ["Uniseg.Properties.C12.gb_cr_lf", "Uniseg.Properties.C12.wb_cr_lf", "Uniseg.Properties.C12.sb_cr_lf", "Uniseg.Properties.C12.lb_cr_lf",
                 "Uniseg.Properties.C12.cr_lf_letters", "Uniseg.Properties.C12.must_iff", "Uniseg.Properties.C12.last_segment_must",
